@@ -42,6 +42,12 @@ CHECKS = {
  "C04": ("differential runtime monitor: serde_json as executable model for 50 target types (Ok/Err agreement and PartialEq, floats by bits) over from_slice and from_str; ASan",
          "Exploration over type-directed texts: matching (serialised random instances, boundary +-1 integers of every width incl. 128-bit), near-matching (14 mutators), padded and generic texts; ~2M comparisons in quick.",
          "Trusted: serde_json 1.0.151 as model, run under its own panic guard (it panics on non-ASCII keys of bool-keyed maps; such cases carry no verdict). Documented exceptions implemented literally: depth > 64 not generated; f32 model = (f64 parse) as f32; a rejection by sonic of a text that is not well-formed JSON / not UTF-8 is never an alarm (serde_json is lenient for skipped strings and byte buffers); messages are not compared."),
+ "C06": ("runtime monitor: fixpoint / equality / order / digit-preservation oracle against the reference parse tree of the source text; builds: default, sort_keys (reference = stable key sort), arbitrary_precision and use_rawnumber (number tokens verbatim); Display/to_string/to_vec equality; pretty = re-indented compact; ASan",
+         "Exploration over 100k (quick) generated documents with duplicates, long numbers and escapes, and the corpus files, each through 4 routes.",
+         "Trusted: harness recogniser and re-indenter."),
+ "C19": ("runtime monitor: the text route as model for the DOM route (to_value vs parse(to_string), from_value vs from_str) with the documented failure table implemented literally; reference tree equality as oracle for ==, symmetry, member-order and construction-route insensitivity and primitive comparisons; ASan",
+         "Exploration over 60k (quick) generated values driving every Serializer method, 31 typed targets x matching texts, 50k document pairs. Two known findings are matched by computed signatures (F8 duplicate-key asymmetry, F15 f32 widening); any other difference fails.",
+         "Trusted: harness recogniser; the F15 classification re-serialises the value with every f32 widened and requires exact DOM equality."),
  "C02": ("differential runtime monitor: independent RFC 8259 recogniser as accept/reject oracle over enumerated token sequences and mutated documents; ASan build",
          "Exploration: every listed entry point x carrier is executed on all token sequences up to the bound and on seeded generated/mutated documents; an independent recogniser decides what must be accepted. Held on the cases observed, not a proof over all byte strings.",
          "Trusted: the harness recogniser (cross-checked against serde_json), rustc, ASan runtime. Depth is capped at 64 so the permitted nesting-limit rejection never explains a verdict."),
